@@ -65,6 +65,12 @@ def base_project(k):
         lines.append('%stask t%d "%s%d" { effort %s allocate r%d%s%s }\n' % (ind, t, name, t, eff, rng.randrange(nres), dep, prio))
     if shape == 4:
         lines.append("}\n")
+        # a second container whose children carry the SAME local ids as those of the first (box.t0 / box2.t0): anything keyed
+        # by the local id instead of the full id mixes them up
+        lines.append('task box2 "Box 2" {\n')
+        for t in range(min(ntask, 1 + rng.randrange(3))):
+            lines.append('  task t%d "%s%d again" { effort %s allocate r%d }\n' % (t, name, t, rng.choice(["1h", "2h", "3h"]), rng.randrange(nres)))
+        lines.append("}\n")
         lines.append('task done "Done" { milestone depends box }\n')
     if shape == 6:
         lines.append("# trailing comment without newline")
